@@ -16,47 +16,13 @@ func init() {
 
 func c05(c *q.Ctx) {
 	poolMapOwner(c)
+	poolRollback(c)
 	metaCopiesDistinct(c)
 	blockCacheCoherent(c)
 	keyLockProtocol(c)
 	const st = "bcs/ledger/xledger/state::"
 	const led = "bcs/ledger/xledger/ledger::"
-	kinds := []q.MirrorKind{
-		{Name: "balance cache", Dirty: []string{"UtxoVM.AddBalance", "UtxoVM.SubBalance"}, Clean: []string{"UtxoVM.ClearBalanceCache"}},
-		{Name: "utxo cache", Dirty: []string{"UtxoCache.Insert", "CacheFiller.Commit"}, CleanStores: []string{"UtxoVM.UtxoCache"}},
-		{Name: "total supply", Dirty: []string{"UtxoVM.UpdateUtxoTotal"}, Clean: []string{"UtxoVM.ReloadTotal"}},
-		{Name: "header cache", Dirty: []string{"LRUCache.Add@*.blkHeaderCache"}, DirtyStores: []string{"InternalBlock.InTrunk@ledger.(*Ledger).fetchBlock(*", "InternalBlock.NextHash@ledger.(*Ledger).fetchBlock(*", "InternalBlock.InTrunk@phi{ledger.(*Ledger).fetchBlock(*", "InternalBlock.NextHash@phi{ledger.(*Ledger).fetchBlock(*"}, Clean: []string{"Ledger.purgeHeaderCache"}},
-	}
-	infallible := map[string]string{
-		"UtxoItem.Dumps":                                 "JSON of {*big.Int,int64} cannot fail",
-		"Meta.UpdateNextIrreversibleBlockHeight":         "fails only for a negative window, which NewMeta refuses to load, or when a batch Put fails, which the leveldb batch never does",
-		"Meta.UpdateNextIrreversibleBlockHeightForPrune": "as above",
-		"proto::Marshal":                                 "marshalling a well-formed message held in memory does not fail",
-		"State.undoTxInternal":                           "undoing a transaction that was applied fails only if a version it cited can no longer be fetched, i.e. the database is already inconsistent",
-		"XModel.UndoTx":                                  "as above",
-	}
-	k9 := c.NewK9([]string{"bcs/ledger/xledger/state", "bcs/ledger/xledger/state/utxo", "bcs/ledger/xledger/state/meta", "bcs/ledger/xledger/state/xmodel", "bcs/ledger/xledger/ledger", "bcs/ledger/xledger/tx"},
-		kinds, []string{"Batch.Write", "State.updateLatestBlockid"}, infallible)
-	// ConfirmBlock returns a struct: a return is a failure unless it is reached after `Succ = true`
-	k9.FailMarker = func(fn *ssa.Function, ret *ssa.Return) (bool, bool) {
-		if fn.Name() != "ConfirmBlock" {
-			return false, false
-		}
-		for _, b := range fn.Blocks {
-			for _, ins := range b.Instrs {
-				if s, ok := ins.(*ssa.Store); ok {
-					if fa, ok := s.Addr.(*ssa.FieldAddr); ok && q.Canon(s.Val) == "true" && q.CanonD(fa, 3) != "" {
-						if isSuccField(fa) && q.ReachFrom([]*ssa.BasicBlock{b}, nil)[ret.Block()] {
-							return false, true
-						}
-					}
-				}
-			}
-		}
-		return true, true
-	}
-	// ConfirmBlock's deferred purge tests the status it returns: `!confirmStatus.Succ`
-	k9.FailGuard = func(g q.Cond) bool { return g.Canon == "local<ConfirmStatus>.Succ" && !g.Sense }
+	k9 := ledgerK9(c)
 	coinbaseNever := "coinbase transactions never reach the pool path: DoTx rejects them and recoverUnconfirmedTx skips them, so UpdateUtxoTotal is not executed here"
 	k9.Operation(led+"(*Ledger).ConfirmBlock", nil)
 	k9.Operation(led+"(*Ledger).Truncate", nil)
@@ -125,4 +91,50 @@ func c05(c *q.Ctx) {
 
 func isSuccField(fa *ssa.FieldAddr) bool {
 	return q.FieldNameOf(fa) == "ConfirmStatus.Succ"
+}
+
+// ledgerK9 configures the commit-before-publish analysis (mirror kinds, infallible table, how ConfirmBlock marks
+// failure). C05 runs it over all eight batch-writing operations; C04 over the two ledger operations (a refused
+// confirmation must not leave its header edits behind: the next confirmation would persist them).
+func ledgerK9(c *q.Ctx) *q.K9 {
+	const st = "bcs/ledger/xledger/state::"
+	const led = "bcs/ledger/xledger/ledger::"
+	_, _ = st, led
+	kinds := []q.MirrorKind{
+		{Name: "balance cache", Dirty: []string{"UtxoVM.AddBalance", "UtxoVM.SubBalance"}, Clean: []string{"UtxoVM.ClearBalanceCache"}},
+		{Name: "utxo cache", Dirty: []string{"UtxoCache.Insert", "CacheFiller.Commit"}, CleanStores: []string{"UtxoVM.UtxoCache"}},
+		{Name: "total supply", Dirty: []string{"UtxoVM.UpdateUtxoTotal"}, Clean: []string{"UtxoVM.ReloadTotal"}},
+		{Name: "header cache", Dirty: []string{"LRUCache.Add@*.blkHeaderCache"}, DirtyStores: []string{"InternalBlock.InTrunk@ledger.(*Ledger).fetchBlock(*", "InternalBlock.NextHash@ledger.(*Ledger).fetchBlock(*", "InternalBlock.InTrunk@phi{ledger.(*Ledger).fetchBlock(*", "InternalBlock.NextHash@phi{ledger.(*Ledger).fetchBlock(*"}, Clean: []string{"Ledger.purgeHeaderCache"}},
+	}
+	infallible := map[string]string{
+		"UtxoItem.Dumps":                                 "JSON of {*big.Int,int64} cannot fail",
+		"Meta.UpdateNextIrreversibleBlockHeight":         "fails only for a negative window, which NewMeta refuses to load, or when a batch Put fails, which the leveldb batch never does",
+		"Meta.UpdateNextIrreversibleBlockHeightForPrune": "as above",
+		"proto::Marshal":                                 "marshalling a well-formed message held in memory does not fail",
+		"State.undoTxInternal":                           "undoing a transaction that was applied fails only if a version it cited can no longer be fetched, i.e. the database is already inconsistent",
+		"XModel.UndoTx":                                  "as above",
+	}
+	k9 := c.NewK9([]string{"bcs/ledger/xledger/state", "bcs/ledger/xledger/state/utxo", "bcs/ledger/xledger/state/meta", "bcs/ledger/xledger/state/xmodel", "bcs/ledger/xledger/ledger", "bcs/ledger/xledger/tx"},
+		kinds, []string{"Batch.Write", "State.updateLatestBlockid"}, infallible)
+	// ConfirmBlock returns a struct: a return is a failure unless it is reached after `Succ = true`
+	k9.FailMarker = func(fn *ssa.Function, ret *ssa.Return) (bool, bool) {
+		if fn.Name() != "ConfirmBlock" {
+			return false, false
+		}
+		for _, b := range fn.Blocks {
+			for _, ins := range b.Instrs {
+				if s, ok := ins.(*ssa.Store); ok {
+					if fa, ok := s.Addr.(*ssa.FieldAddr); ok && q.Canon(s.Val) == "true" && q.CanonD(fa, 3) != "" {
+						if isSuccField(fa) && q.ReachFrom([]*ssa.BasicBlock{b}, nil)[ret.Block()] {
+							return false, true
+						}
+					}
+				}
+			}
+		}
+		return true, true
+	}
+	// ConfirmBlock's deferred purge tests the status it returns: `!confirmStatus.Succ`
+	k9.FailGuard = func(g q.Cond) bool { return g.Canon == "local<ConfirmStatus>.Succ" && !g.Sense }
+	return k9
 }
